@@ -22,8 +22,10 @@ const (
 )
 
 type Prog struct {
-	Pkgs   []*Pkg
-	nextID int
+	Pkgs      []*Pkg
+	nextID    int
+	renameGen int
+	renameSeq int
 }
 
 func (p *Prog) NewID() int { p.nextID++; return p.nextID }
@@ -153,10 +155,14 @@ type TypeRef struct {
 }
 
 type Var struct {
-	Name  string
-	Basic string   // type text when Ref == nil ("" = int)
-	Ref   *TypeRef // nil for plain int
-	ID    int      // site id of the declaring line (params)
+	Name     string
+	Basic    string    // type text when Ref == nil ("" = int)
+	Ref      *TypeRef  // nil for plain int
+	ID       int       // site id of the declaring line (params)
+	Shadow   bool      // deliberately carries the name of an outer variable (e.g. the receiver)
+	PkgNamed *Pkg      // if set, spelled like this package\'s qualifier in the file (shadows it)
+	CallOf   *FuncDecl // if set, the operand is the call CallOf() of a same-package helper
+	renamed  int
 }
 
 func (v *Var) IsPtr() bool { return v.Ref != nil && v.Ref.Ptr }
@@ -176,6 +182,7 @@ type FuncDecl struct {
 	ExtraDoc    []string
 	RetExpr     string // expression returned when Results non-empty (rendered verbatim after refs)
 	RetSite     *Site  // optional site that is the return statement
+	RetVar      *Var   // if set: return <RetVar.Name>
 	done        bool   // body complete (usable as a call target)
 	called      bool   // referenced from a site: must stay in a regular file
 }
@@ -216,17 +223,21 @@ const (
 	WDefer
 	WGo
 	WBlock
+	WAssignClosure // _ = func() {...}            (closure as operand of an assignment)
+	WArgClosure    // func(f func()) {}(func() {...}) (closure as call argument)
+	WVarClosure    // var fnN = func() {...}; _ = fnN  (closure in a local declaration)
 	WClosureParams // func(params){...}(nil...) closure with its own params
 	numWraps
 )
 
-var WrapNames = []string{"if", "for", "switch", "select", "closure", "defer", "go", "block", "closureparams"}
+var WrapNames = []string{"if", "for", "switch", "select", "closure", "defer", "go", "block", "assign-closure", "arg-closure", "var-closure", "closureparams"}
 
 type Wrap struct {
 	Node
 	Kind   WrapKind
 	Body   []Stmt
 	Params []*Var // WClosureParams
+	Name   string // WVarClosure: the declared variable
 }
 
 func (w *Wrap) stmtNode() *Node { return &w.Node }
@@ -234,18 +245,19 @@ func (w *Wrap) stmtNode() *Node { return &w.Node }
 // Site is one candidate statement on one line.
 type Site struct {
 	Node
-	ID      int
-	Kind    string
-	Type    *TypeDecl
-	Ref     *TypeRef // mention of Type at this site, if any
-	Field   *Field
-	Opnd    *Var
-	Fn      *FuncDecl
-	Aux     string // kind-specific
-	Local   string // name of a local variable introduced / used
-	Multi   bool   // rendered over several lines (diagnostic expected on the tagged line)
-	Form    string // how an expression site is embedded: "" (_ = E) | return | define | pkgvar
-	Grouped bool   // inside a var ( ... ) group (set by the renderer)
+	ID       int
+	Kind     string
+	Type     *TypeDecl
+	Ref      *TypeRef // mention of Type at this site, if any
+	Field    *Field
+	Opnd     *Var
+	Fn       *FuncDecl
+	Aux      string // kind-specific
+	Local    string // name of a local variable introduced / used
+	LocalVar *Var   // if set, the introduced local (its Name overrides Local)
+	Multi    bool   // rendered over several lines (diagnostic expected on the tagged line)
+	Form     string // how an expression site is embedded: "" (_ = E) | return | define | pkgvar
+	Grouped  bool   // inside a var ( ... ) group (set by the renderer)
 }
 
 func (s *Site) stmtNode() *Node { return &s.Node }
